@@ -157,18 +157,18 @@ func flagDeref(m dsl.Matcher) {
 //doc:before  len(s) == 0
 //doc:after   s == ""
 func emptyStringTest(m dsl.Matcher) {
-	m.Match(`len($s) != 0`).
-		Where(m["s"].Type.Is(`string`)).
+	m.Match(`$len($s) != 0`).
+		Where(m["s"].Type.Is(`string`) && m["len"].Text == "len" && m["len"].Object.Is(`Builtin`)).
 		Report("replace `$$` with `$s != \"\"`")
-	m.Match(`len($s) > 0`).
-		Where(m["s"].Type.Is(`string`)).
+	m.Match(`$len($s) > 0`).
+		Where(m["s"].Type.Is(`string`) && m["len"].Text == "len" && m["len"].Object.Is(`Builtin`)).
 		Report("replace `$$` with `$s != \"\"`")
 
-	m.Match(`len($s) == 0`).
-		Where(m["s"].Type.Is(`string`)).
+	m.Match(`$len($s) == 0`).
+		Where(m["s"].Type.Is(`string`) && m["len"].Text == "len" && m["len"].Object.Is(`Builtin`)).
 		Report("replace `$$` with `$s == \"\"`")
-	m.Match(`len($s) <= 0`).
-		Where(m["s"].Type.Is(`string`)).
+	m.Match(`$len($s) <= 0`).
+		Where(m["s"].Type.Is(`string`) && m["len"].Text == "len" && m["len"].Object.Is(`Builtin`)).
 		Report("replace `$$` with `$s == \"\"`")
 }
 
@@ -182,7 +182,7 @@ func stringXbytes(m dsl.Matcher) {
 	m.Match(`string($b) == ""`).Where(m["b"].Type.Is(`[]byte`)).Suggest(`len($b) == 0`)
 	m.Match(`string($b) != ""`).Where(m["b"].Type.Is(`[]byte`)).Suggest(`len($b) != 0`)
 
-	m.Match(`len(string($b))`).Where(m["b"].Type.Is(`[]byte`)).Suggest(`len($b)`)
+	m.Match(`$len(string($b))`).Where(m["b"].Type.Is(`[]byte`) && m["len"].Text == "len" && m["len"].Object.Is(`Builtin`)).Suggest(`len($b)`)
 
 	m.Match(`string($x) == string($y)`).
 		Where(m["x"].Type.Is(`[]byte`) && m["y"].Type.Is(`[]byte`)).
